@@ -407,8 +407,8 @@ def _lt(a, b):
 
 def l_argsort(xs, ties_unspecified=False):
     """Stable insertion sort by forking comparisons; returns index list.
-    With ties_unspecified (np.argsort without kind='stable') tied values make
-    the path inconclusive: NumPy's default order of equal elements is not
+    With ties_unspecified (np.argsort without kind='stable') every order of
+    tied values is explored: NumPy's default order of equal elements is not
     specified (and is not the stable one on this build)."""
     _used("sort(forking insertion sort)")
     idx = []
@@ -417,10 +417,21 @@ def l_argsort(xs, ties_unspecified=False):
         # stable: move left while xs[i] < xs[idx[pos-1]]
         while pos > 0 and _lt(xs[i], xs[idx[pos - 1]]):
             pos -= 1
-        if ties_unspecified and pos > 0:
+        while ties_unspecified and pos > 0:
             prev = xs[idx[pos - 1]]
-            if not bool(l_isnan(prev)) and not bool(l_isnan(xs[i])) and bool(elem_apply(np.equal, prev, xs[i])):
-                raise Unsupported("np.argsort of tied values: the order of equal elements is unspecified")
+            if bool(l_isnan(prev)) or bool(l_isnan(xs[i])) or not bool(elem_apply(np.equal, prev, xs[i])):
+                break
+            # np.argsort without kind='stable' does not specify the order of equal elements (and it is not
+            # the stable one on this build): every order is explored (a fork per tied neighbour); what the
+            # installed NumPy picks is one of them, so the witness replay of such a path is skipped and a
+            # counterexample counts only if the real run confirms it
+            ctx = core.current()
+            if ctx is None:
+                break
+            ctx.witness_incomplete = True
+            if ctx.choose(2, "argsort-tie") == 0:
+                break
+            pos -= 1
         idx.insert(pos, i)
     return idx
 
